@@ -243,7 +243,7 @@ func vC43_consumerStep(kind int) {
 		}
 	}
 	x.confirmedSeq = vNondetInt64("confirmedSeq")
-	vAssume(x.confirmedSeq >= 0 && x.confirmedSeq < 1000)
+	vAssume(x.confirmedSeq >= 0 && x.confirmedSeq < 1<<62)
 	x.expectedSeq = x.confirmedSeq + 1
 	x.requestUpToSeq = vNondetInt64("requestUpToSeq")
 	nbuf := vCase("bufLen")
